@@ -1,5 +1,6 @@
 import Driver.Proto
 import Uft.Model.PyTrace
+import Uft.Model.PyHook
 /- C19 driver.
    <fixed 0|1> <NONE|SINGLE|NESTED> <regex|glob|simple> <UFTRACE_FILTER|-> <lib names a,b|-> | <ev> …
      ev = c:<name> call  r:<name> return  C:<name> c_call  R:<name> c_return
@@ -7,6 +8,20 @@ import Uft.Model.PyTrace
    -> "E<addr> X … | <count_in> <count_out> <libcall_count> | <addr>:<T|P>:<name> …"
    spec <fixed> <mode> <ptype> <filter|-> <libs|-> | <tree tokens>
      tree tokens: ( <p|c|x> <name> … )        -> "E<addr> X …"   (the documented selection)
+
+   hook <fixed> <guard 0|1> <pin 0|1> <below hex> <max-stack|-> <mode> <ptype> <filter|-> <libs|-> | <tok> …
+     the tracer end to end (Model/PyHook.lean: first frame, symbol table, decision, libmcount's hooks)
+     tok = <ev>@<fid>   an event whose frame argument is frame object <fid>; the clock reads
+                        1000 + 10*i at the i-th event token
+           new@<fid>    frame object <fid> is allocated now (same size class as the first frame)
+           del@<fid>    the last reference outside the tracer to frame object <fid> is dropped
+     -> "E<addr> X … | cin cout lib | <time>:<type>:<depth>:<addr> … | idx=<n> oob=<0|1> lone=<k> |
+         <addr>:<T|P|?>:<name> … | <addr>=<name> …"      (hook calls | counters | records written |
+         shadow stack | python.fake.sym | every recorded address resolved through that file)
+     Frame addresses: object <fid> gets address fid+1, except that an object allocated while the
+     block of the first frame is free gets that block (`laterFrameAddr`; LIFO free list of the
+     allocator); the block of the first frame is freed by del@ unless pin = 1 (the tracer holds
+     a reference).  After an out-of-bounds frame access (oob) the rest of the line is ignored.
 
    Pattern matching (libc strcmp/regexec/fnmatch in the C code) is done here for
    the subset the generator uses: regex = literals, `.`, postfix `*`, `^`, `$`
@@ -153,6 +168,89 @@ def handle (ws : List String) : String :=
     | _, _ => "bad-op"
   | _ => "bad-op"
 
-def model : Model := { σ := Unit, init := (), step := fun _ ws => ((), handle ws) }
+/-! ### `hook`: Model/PyHook.lean -/
+open Uft.PyHook in
+structure HRun where
+  st : PSt String
+  /-- fid ↦ address -/
+  addrs : List (Nat × Nat) := []
+  /-- the block of the first frame is on the allocator's free list -/
+  avail : Bool := false
+  calls : List String := []
+  /-- exit hooks that arrive with `idx == 0` on a thread that has a shadow stack: the calls in
+      which the code as found reads `rstack[-1]` -/
+  lone : Nat := 0
+  nev : Nat := 0
+  bad : Bool := false
+
+open Uft.PyHook in
+def parseTok (t : String) : Option (String × Nat) :=
+  match t.splitOn "@" with
+  | [a, b] => b.toNat?.map fun n => (a, n)
+  | _ => none
+
+open Uft.PyHook in
+def hookStep (c : PCfg String) (pin : Bool) (r : HRun) (t : String) : HRun :=
+  if r.bad || r.st.hk.oob then r else
+  match parseTok t with
+  | none => { r with bad := true }
+  | some ("new", fid) =>
+    let fresh := fid + 1
+    let a := match r.st.first with
+      | some F => if r.avail then laterFrameAddr pin F fresh else fresh
+      | none => fresh
+    { r with addrs := (fid, a) :: r.addrs, avail := if a == fresh then r.avail else false }
+  | some ("del", fid) =>
+    match r.addrs.lookup fid, r.st.first with
+    | some a, some F => if a == F then { r with avail := !pin } else r
+    | _, _ => r
+  | some (evs, fid) =>
+    match parseEv evs, r.addrs.lookup fid with
+    | some e, some a =>
+      let now := 1000 + 10 * r.nev
+      let ev : Ev (Node String) := ⟨e.kind, ⟨e.name, a, now, now⟩⟩
+      let outs :=
+        if skips c r.st.first a then []
+        else
+          let cv := convert c.cmp c.py.isLib r.st.tree r.st.shm e.name
+          (stepOut (liftCfg c.py) r.st.py ev).map fun
+            | .enter _ => s!"E{cv.2.2.addr}"
+            | .exit => "X"
+      let lone := if outs.contains "X" && r.st.hk.prepared && r.st.hk.m.idx == 0 then 1 else 0
+      { r with st := pstep c r.st ev, calls := r.calls ++ outs, nev := r.nev + 1, lone := r.lone + lone }
+    | _, _ => { r with bad := true }
+
+open Uft.PyHook in
+def showSymLine (l : SymLine String) : String :=
+  s!"{l.addr}:{l.type}:{l.name.getD "__sym_end"}"
+
+open Uft.PyHook in
+def handleHook (fixed guard pin below maxst mode ptype filt libs : String) (toks : List String) : String :=
+  match mkCfg fixed mode ptype filt libs, parseHexNat below with
+  | some py, some bw =>
+    let m : Uft.Mcount.Cfg := match maxst.toNat? with
+      | some n => { maxStack := n }
+      | none => {}
+    let c : PCfg String :=
+      { py := py, skipFirst := true, cmp := compare, hk := { m := m, guard := guard == "1", below := bw } }
+    let r := toks.foldl (hookStep c (pin == "1")) { st := PSt.init c }
+    if r.bad then "bad-op" else
+    let recs := r.st.hk.m.out
+    let file := symFile r.st.shm
+    let addrs := (recs.filter (·.type == 0)).map (·.addr) |>.eraseDups
+    let res := addrs.map fun a => s!"{a}={(resolve file a).getD "?"}"
+    let oob := if r.st.hk.oob then 1 else 0
+    s!"{" ".intercalate r.calls} | {r.st.py.cin} {r.st.py.cout} {r.st.py.lib} | " ++
+      s!"{" ".intercalate (recs.map fun x => s!"{x.time}:{x.type}:{x.depth}:{x.addr}")} | " ++
+      s!"idx={r.st.hk.m.idx} oob={oob} lone={r.lone} | {" ".intercalate (file.map showSymLine)} | {" ".intercalate res}"
+  | _, _ => "bad-op"
+
+def handleAll (ws : List String) : String :=
+  match splitBar ws with
+  | (["hook", fixed, guard, pin, below, maxst, mode, ptype, filt, libs], toks) =>
+    handleHook fixed guard pin below maxst mode ptype filt libs toks
+  | _ => handle ws
+
+def model : Model := { σ := Unit, init := (), step := fun _ ws => ((), handleAll ws) }
 
 end Driver.C19
